@@ -12,14 +12,14 @@ use std::collections::BTreeMap;
 use std::time::Duration;
 
 pub fn meta(m: &mut PropMeta) {
-    m.rule = "a pool of 16 file texts spread over nested and sibling modules (cross-file type references, alias chains, inheritance, deprecated uses, doc links that resolve only when another file is present, a redefinition across files, a containment cycle across files, a dictionary key struct, and a definition named like a nested module of another file); EVERY subset of 2..4 files (quick) / 2..5 files (thorough) x ALL permutations of the subset, compiled in-process; every compilation is executed twice (fresh hash seeds) and must give identical diagnostics and ASTs; across the permutations of one subset: accepted-or-rejected is constant and, when accepted, every file's observed AST and the multiset of warnings (code, message, file, span) are constant. Process level: 3-file programs x every source/reference assignment x all 6 orders through the real binary with a capturing generator: exit status constant, warning multiset constant, and the decoded request content of every file constant (only the split and order change); every scenario repeated under hash seeds VERIF_HASH_SEED = 0..3 (quick) / 0..31 (thorough) via an LD_PRELOAD getrandom shim: stderr, stdout and the captured request must be byte-identical. non-trivial = the subset's files refer to each other; distinct = distinct (subset, order).";
+    m.rule = "a pool of 21 file texts spread over nested and sibling modules (cross-file type references, alias chains, inheritance, deprecated uses, doc links that resolve only when another file is present, a redefinition across files, a containment cycle across files, a dictionary key struct, and a definition named like a nested module of another file); EVERY subset of 2..4 files (quick) / 2..5 files (thorough) x ALL permutations of the subset, compiled in-process; every compilation is executed twice (fresh hash seeds) and must give identical diagnostics and ASTs; across the permutations of one subset: accepted-or-rejected is constant and, when accepted, every file's observed AST and the multiset of warnings (code, message, file, span) are constant. Process level: 3-file programs x every source/reference assignment x all 6 orders through the real binary with a capturing generator: exit status constant, warning multiset constant, and the decoded request content of every file constant (only the split and order change); every scenario repeated under hash seeds VERIF_HASH_SEED = 0..3 (quick) / 0..31 (thorough) via an LD_PRELOAD getrandom shim: stderr, stdout and the captured request must be byte-identical. non-trivial = the subset's files refer to each other; distinct = distinct (subset, order).";
     m.explanation = "exhaustive subsets x permutations x source/reference assignments; differential oracle (no expected value needed); controlled hash seeds";
-    m.quick_bound = "all subsets of 2..4 of 16 files x all permutations; 4 hash seeds";
-    m.thorough_bound = "all subsets of 2..5 of 16 files x all permutations; 32 hash seeds";
+    m.quick_bound = "all subsets of 2..4 of 21 files x all permutations; 4 hash seeds";
+    m.thorough_bound = "all subsets of 2..5 of 21 files x all permutations; 32 hash seeds";
     m.assumptions.push("the hash-seed space cannot be enumerated: seeds are a controlled, replayable sample; the permutation / assignment part is exhaustive");
 }
 
-const POOL: [&str; 16] = [
+const POOL: [&str; 21] = [
     "module A\nstruct S0 { x: int32 }\nenum E0 : uint8 { X }\n",
     "module A\nstruct S1 { s: S0, e: E0? }\n",
     "module A::B\nstruct T { s: S0, u: A::S1 }\n",
@@ -36,6 +36,13 @@ const POOL: [&str; 16] = [
     "module A\ncompact struct K { k: int32 }\nstruct D { d: Dictionary<K, S0> }\n",
     "module A::B\nstruct Lone { q: int32 }\n",
     "module A::B::C\ntypealias Deep = T\nstruct W { t: Deep, s: S0, z: ::Z::Old? }\n",
+    // a member whose scoped name (A::B::Lone) is also that of a definition in a nested module of another file (#14)
+    "module A\nstruct B { Lone: int32 }\n",
+    // preprocessor symbols must stay inside their file
+    "#define FLAG\nmodule P\nstruct PD {}\n",
+    "module P\n#if FLAG\nstruct PX { x: int32 }\n#endif\nstruct PU { y: int32 }\n",
+    "module P\nstruct PV { v: PX? }\n",
+    "module Q\nstruct UL { l: A::B::Lone }\n",
 ];
 
 /// files whose presence together makes a definition collide with a nested module of another file
@@ -123,7 +130,7 @@ impl Permutations {
 }
 impl Family for Permutations {
     fn name(&self) -> String {
-        format!("permutations/{} subsets of the 16-file pool x all permutations, each compiled twice", self.subsets.len())
+        format!("permutations/{} subsets of the 21-file pool x all permutations, each compiled twice", self.subsets.len())
     }
     fn len(&self) -> u64 {
         self.subsets.len() as u64
@@ -137,7 +144,15 @@ impl Family for Permutations {
         let mut out = CaseOut::new(hash_str(&format!("c15perm{subset:?}")));
         out.steps = 0;
         out.validated = 1;
-        let feature = if has_module_definition_collision(subset) { "definition-named-like-nested-module-of-another-file" } else { "no-module-definition-collision" };
+        let feature = if subset.contains(&16) && subset.contains(&14) {
+            "member-named-like-definition-in-nested-module-of-another-file"
+        } else if has_module_definition_collision(subset) {
+            "definition-named-like-nested-module-of-another-file"
+        } else if subset.contains(&17) && (subset.contains(&18) || subset.contains(&19)) {
+            "preprocessor-symbol-defined-in-another-file"
+        } else {
+            "no-module-definition-collision"
+        };
         let show = |o: &[usize]| o.iter().map(|i| format!("--- file (pool #{i}) ---\n{}", POOL[*i])).collect::<Vec<_>>().join("");
         let mut first: Option<(Vec<usize>, Outcome)> = None;
         for order in permutations(subset) {
@@ -190,7 +205,20 @@ fn shim_path() -> String {
     std::env::var("VERIF_HASH_SHIM").unwrap_or_else(|_| format!("{}/.build/libhashseed.so", std::env::var("VERIF_ROOT").unwrap_or_else(|_| "/verif".to_string())))
 }
 
-const PROGRAMS: [[usize; 3]; 4] = [[0, 1, 2], [5, 6, 4], [0, 2, 8], [0, 13, 1]];
+/// Programs of the process-level family: clean, warnings (deprecated uses, broken links), and rejected ones (a
+/// redefinition across files, a containment cycle across files, an unresolved reference), so that "accepted or
+/// rejected" has both answers; two four-file programs.
+fn programs(tier: &str) -> Vec<Vec<usize>> {
+    let mut v: Vec<Vec<usize>> = vec![vec![0, 1, 2], vec![5, 6, 4], vec![0, 2, 8], vec![0, 13, 1], vec![0, 7, 1], vec![11, 12, 0], vec![9, 2, 10], vec![1, 2, 3], vec![0, 1, 2, 15], vec![4, 5, 6, 0]];
+    if tier != "quick" {
+        for s in subsets(POOL.len(), 3) {
+            if !v.contains(&s) {
+                v.push(s);
+            }
+        }
+    }
+    v
+}
 
 struct BinObs {
     exit: Option<i32>,
@@ -228,33 +256,47 @@ fn run_binary(files: &[(usize, bool)], seed: Option<u32>) -> BinObs {
 
 pub struct Assignments {
     pub seeds: u32,
+    /// seeds used for the programs beyond the first ten (thorough tier: every 3-subset of the pool)
+    pub seeds_rest: u32,
+    progs: Vec<Vec<usize>>,
+    /// (program, order, source mask) for every case
+    cases: Vec<(usize, Vec<usize>, u64)>,
 }
 impl Assignments {
-    fn decode(&self, idx: u64) -> (usize, u64, usize) {
-        let order = (idx % 6) as usize;
-        let assign = (idx / 6) % 7 + 1;
-        let prog = (idx / 42) as usize;
-        (prog, assign, order)
+    pub fn new(tier: &str) -> Self {
+        let progs = programs(tier);
+        let mut cases = vec![];
+        for (pi, p) in progs.iter().enumerate() {
+            let n = p.len();
+            let idxs: Vec<usize> = (0..n).collect();
+            for order in permutations(&idxs) {
+                for mask in 1..(1u64 << n) {
+                    cases.push((pi, order.clone(), mask));
+                }
+            }
+        }
+        Assignments { seeds: if tier == "quick" { 4 } else { 32 }, seeds_rest: 2, progs, cases }
     }
 }
 impl Family for Assignments {
     fn name(&self) -> String {
-        format!("binary-assignments-and-seeds/4 three-file programs x 7 source/reference assignments x 6 orders through the real binary, each under {} hash seeds", self.seeds)
+        format!("binary-assignments-and-seeds/{} programs of 3-4 files (clean, warnings, rejected) x every source/reference assignment with >= 1 source x all orders through the real binary, each under {} hash seeds (first ten programs; {} for the rest)", self.progs.len(), self.seeds, self.seeds_rest)
     }
     fn len(&self) -> u64 {
-        4 * 42
+        self.cases.len() as u64
     }
     fn hang_secs(&self) -> f64 {
         120.0
     }
     fn describe(&self, idx: u64) -> Value {
-        let (p, a, o) = self.decode(idx);
-        json!({"pool_files": PROGRAMS[p], "sources_mask": format!("{a:#b}"), "order": o, "seeds": self.seeds})
+        let (p, o, a) = &self.cases[idx as usize];
+        json!({"pool_files": self.progs[*p], "sources_mask": format!("{a:#b}"), "order": o, "seeds": if *p < 10 { self.seeds } else { self.seeds_rest }})
     }
     fn run(&self, idx: u64) -> CaseOut {
-        let (p, assign, oi) = self.decode(idx);
-        let order = [[0usize, 1, 2], [0, 2, 1], [1, 0, 2], [1, 2, 0], [2, 0, 1], [2, 1, 0]][oi];
-        let files: Vec<(usize, bool)> = order.iter().map(|k| (PROGRAMS[p][*k], (assign >> k) & 1 == 1)).collect();
+        let (p, order, assign) = self.cases[idx as usize].clone();
+        let prog = &self.progs[p];
+        let seeds = if p < 10 { self.seeds } else { self.seeds_rest };
+        let files: Vec<(usize, bool)> = order.iter().map(|k| (prog[*k], (assign >> k) & 1 == 1)).collect();
         let mut out = CaseOut::new(hash_str(&format!("c15bin{idx}")));
         out.steps = 0;
         out.validated = 1;
@@ -271,7 +313,7 @@ impl Family for Assignments {
             out.violate("c15/binary/crash-or-hang", desc());
             return out;
         }
-        for seed in 1..self.seeds {
+        for seed in 1..seeds {
             let o = run_binary(&files, Some(seed));
             out.steps += 1;
             if o.stderr != base.stderr || o.stdout != base.stdout || o.exit != base.exit {
@@ -290,7 +332,7 @@ impl Family for Assignments {
             out.violate("c15/binary/two-runs-of-the-same-input-differ", desc());
         }
         // against the canonical arrangement: all three as sources in pool order
-        let canon_files: Vec<(usize, bool)> = PROGRAMS[p].iter().map(|k| (*k, true)).collect();
+        let canon_files: Vec<(usize, bool)> = prog.iter().map(|k| (*k, true)).collect();
         let canon = run_binary(&canon_files, Some(0));
         out.steps += 1;
         if (canon.exit == Some(0)) != (base.exit == Some(0)) {
@@ -303,7 +345,9 @@ impl Family for Assignments {
             v.sort();
             v
         };
-        if norm(&canon.stderr) != norm(&base.stderr) {
+        // the statement fixes the set of reports only for accepted programs (a rejected program may be reported from
+        // a different starting point, e.g. a cycle from another of its members)
+        if canon.exit == Some(0) && base.exit == Some(0) && norm(&canon.stderr) != norm(&base.stderr) {
             out.violate("c15/binary/reports-depend-on-assignment-or-order", format!("canonical: {:?}\nthis: {:?}\n{}", norm(&canon.stderr), norm(&base.stderr), desc()));
         }
         if let (Some(a), Some(b)) = (&canon.request, &base.request) {
@@ -332,5 +376,5 @@ impl Family for Assignments {
 
 pub fn families(tier: &str) -> Vec<Box<dyn Family>> {
     let quick = tier == "quick";
-    vec![Box::new(Assignments { seeds: if quick { 4 } else { 32 } }), Box::new(Permutations::new(if quick { 4 } else { 5 }))]
+    vec![Box::new(Assignments::new(tier)), Box::new(Permutations::new(if quick { 4 } else { 5 }))]
 }
